@@ -21,7 +21,10 @@ from harness import common
 from harness.common import Failure, lean_run
 
 PROP_MODULES = ["ArmiVerif.Props.C01"]
-PARTIAL = ("locator/grid content beyond attached/detached/owner is C07's; payload (parameter) equality of "
+PARTIAL = ("pickle/deepcopy (`copy`) is modelled and tied by correspondence + oracle but is not in the alphabet of the proved "
+           "inv_run (no copy_spec theorem); acyclicity is proved preserved for add/insert/remove only (not threaded through "
+           "inv_run); iterComponents has no separate spec theorem (tied by correspondence + naive walk); "
+           "locator/grid content beyond attached/detached/owner is C07's; payload (parameter) equality of "
            "copies is C16's; the sort comparator (__lt__ on locators / component diameters) is a parameter of the "
            "model (ranks computed with the real __lt__); Core.add bookkeeping beyond the child list and locator "
            "is C14's")
@@ -798,7 +801,7 @@ SHAPES = ["generic", "generic", "block", "assembly", "core"]
 
 
 def plan(ctx):
-    nseq = ctx.pick(120, 1500)
+    nseq = ctx.pick(300, 1500)
     out = []
     for k in range(nseq):
         shape = SHAPES[k % len(SHAPES)]
